@@ -5,7 +5,8 @@ Events (JSON-able lists):
   ["tick", dt]  ["role_on"]  ["role_off"]  ["try_create", [draws]]  ["join", cid]  ["cancel"]
   ["fail"]  ["leave", reason_code]  ["breakup", reason_code]  ["update"]
   ["rx", {"sender", "near", "info": null | [cid|null, card], "join": cid|null, "leave": cid|null,
-          "breakup": reason_code|null}]
+          "breakup": reason_code|null, optional "pos": index into POSITIONS (must agree with "near"),
+          optional "leave_reason": reason_code of the clusterLeaveInfo (default notProvided)}]
 Time is in ticks of 1/1024 s; the injected time_fn returns ticks/1024 (an exact double).
 """
 from __future__ import annotations
@@ -102,13 +103,42 @@ def lat_of(near):
     return OWN_LAT + (NEAR_DLAT if near else FAR_DLAT)
 
 
+# audit round: senders in every direction and at distances next to the excluded band around MAX_CLUSTER_DISTANCE
+# (north, east) offsets in metres from the own position; an rx event may name one with "pos": index
+POSITIONS = [(1.1, 0.0), (111.0, 0.0), (0.0, 3.9), (0.0, -3.9), (-3.9, 0.0), (2.7, -2.7), (-2.7, 2.7), (0.0, 6.3),
+             (0.0, -6.3), (-6.3, 0.0), (6.3, 0.0), (4.6, 4.6), (-4.6, -4.6), (0.0, 111.0), (0.0, -111.0), (-111.0, 0.0),
+             (3.9, 0.0), (0.0, 0.0), (0.3, 3.8), (80.0, -80.0)]
+M_PER_DEG = 111_194.9
+
+
+def pos_latlon(i):
+    """position i in wire units (1e-7 degree), as a station there would report it"""
+    n, e = POSITIONS[i]
+    lat = OWN_LAT + n / M_PER_DEG
+    lon = OWN_LON + e / (M_PER_DEG * math.cos(math.radians(OWN_LAT)))
+    return int(round(lat * 1e7)), int(round(lon * 1e7))
+
+
+def pos_near(i):
+    n, e = POSITIONS[i]
+    d = math.hypot(n, e)
+    if 4.0 < d < 6.0:
+        raise AssertionError("position inside the excluded band around 5 m")
+    return d <= 5.0
+
+
 def vam_dict(v, decoded_form: bool):
     """the decoded-VAM dict handed to on_received_vam. decoded_form: CHOICE values as (name, value) as the
     real coder delivers them; otherwise the dict notation used by the repository's unit tests."""
     lat = lat_of(v["near"])
+    lat_w, lon_w = int(round(lat * 1e7)), int(round(OWN_LON * 1e7))
+    if v.get("pos") is not None:
+        if pos_near(v["pos"]) != bool(v["near"]):
+            raise AssertionError("rx event: 'near' contradicts 'pos'")
+        lat_w, lon_w = pos_latlon(v["pos"])
     params = {
         "basicContainer": {"stationType": 1, "referencePosition": {
-            "latitude": int(round(lat * 1e7)), "longitude": int(round(OWN_LON * 1e7)),
+            "latitude": lat_w, "longitude": lon_w,
             "positionConfidenceEllipse": {"semiMajorAxisLength": 4095, "semiMinorAxisLength": 4095,
                                           "semiMajorAxisOrientation": 3601},
             "altitude": {"altitudeValue": 800001, "altitudeConfidence": "unavailable"}}},
@@ -128,7 +158,7 @@ def vam_dict(v, decoded_form: bool):
     if v.get("join") is not None:
         op["clusterJoinInfo"] = {"clusterId": v["join"], "joinTime": 12}
     if v.get("leave") is not None:
-        op["clusterLeaveInfo"] = {"clusterId": v["leave"], "clusterLeaveReason": "notProvided"}
+        op["clusterLeaveInfo"] = {"clusterId": v["leave"], "clusterLeaveReason": LEAVE_REASONS[v.get("leave_reason") or 0]}
     if v.get("breakup") is not None:
         op["clusterBreakupInfo"] = {"clusterBreakupReason": BREAKUP_REASONS[v["breakup"]], "breakupTime": 12}
     if op:
